@@ -536,71 +536,120 @@ SOURCE_BODIES = {
     "intermediate-then-unknown": ("{c07e::w*w;+/c07e*c07q}", "{c07e::x*x;+/c07e*c07q}"),
     "vector-valued": ("{c07t::w*2;(c07t*c07t)+b}", "{c07t::x*2;c07t*c07t}"),
     "declared-local": ("{[c07e];c07e::(w*w)+b;+/c07e*c07e}", "{[c07e];c07e::x*x;+/c07e}"),
+    # a projection whose FIXED argument is an unknown name (only the point forms take a monad)
+    "projection-unknown-fixed-arg": (None, "{+/x*y}(;c07q)"),
+    "projection-known-fixed-arg": (None, "{+/x*y}(;m)"),
 }
+
+# the differentiated function READS other globals (m: vector, mm: matrix) and transforms them with
+# verbs that build a new list — and that an implementation might be tempted to do in place
+TRANSFORMS = {
+    "amend": "m:=0.0,0", "amend-two": "m:=9.0,0,2", "amend-in-depth": ",/mm:-0.0,0,1",
+    "amend-row": ",/mm:=[9.0 9.0],0", "reverse": "|m", "rotate": "1:+m", "rotate-neg": "(-1):+m",
+    "take": "2#m", "take-neg": "(-2)#m", "overtake": "5#m", "drop": "1_m", "reshape": ",/[3 1]:^m",
+    "reshape-matrix": ",/[4 1]:^mm", "join": "m,m", "join-atom": "m,7.0", "index": "m@[2 0]",
+    "index-in-depth": "mm:@[1 0]", "transpose": ",/+mm", "reverse-matrix": ",/|mm", "sort-up": "m@<m",
+    "sort-down": "m@>m", "each": "{x*2}'m", "negate": "-m", "floor": "_m", "split": ",/2:#m",
+    "scan": "+\\m", "first-rest": "(*m),1_m", "self-times": "m*m",
+}
+for _n, _t in TRANSFORMS.items():
+    SOURCE_BODIES["global:" + _n] = ("{c07s::+/" + _t + ";(+/w*w)+(b*b)+c07s}", "{c07s::+/" + _t + ";(+/x*x)+c07s}")
 
 
 def source_cases(backends):
+    vec = ["f64", [3], [M, 2 * M, 3 * M]]
     for be in backends:
         for form in FORMS:
-            for body in SOURCE_BODIES:
-                for wk in (["f64", [3], [M, 2 * M, 3 * M]], ["pyfloat", [], [M // 2]]) + \
-                        ((["t32", [2], [M, 2 * M]],) if be == "torch" else ()):
+            for body, (nil, mon) in SOURCE_BODIES.items():
+                if (mon if form in MONADIC else nil) is None:
+                    continue
+                kinds = [vec]
+                if not body.startswith("global:"):
+                    kinds.append(["pyfloat", [], [M // 2]])
+                if be == "torch":
+                    kinds.append(["t32", [3], [M, 2 * M, 3 * M]])
+                for wk in kinds:
                     yield dict(kind="source", backend=be, form=form, body=body, w=list(wk))
 
 
-def run_source(case):
-    """Pure Klong-source loss (no Python inside): intermediates kept in undeclared names and
-    unknown names.  Oracle only: by-value snapshot of ALL variables of all context levels (names
-    included — new names count) before/after the gradient expression, returning or raising, and
-    the function's plain evaluation before/after."""
+def _source_interp(case):
     from klongpy import KlongInterpreter
     if case["backend"] == "torch":
         klong = KlongInterpreter(backend="torch", device="cpu")
     else:
         klong = KlongInterpreter()
-    form = case["form"]
     klong["w"] = make_value(*case["w"])
     klong["b"] = 0.5
+    klong("m::[3.0 1.0 2.0]")
+    klong("mm::[[1.0 2.0] [3.0 4.0]]")
     nil, mon = SOURCE_BODIES[case["body"]]
-    klong("g::" + nil)
-    klong("f::" + mon)
+    if nil is not None:
+        klong("g::" + nil)
+    if mon is not None:
+        klong("f::" + mon)
+    return klong
+
+
+def run_source(case):
+    """Pure Klong-source loss (no Python inside): intermediates kept in undeclared names, unknown
+    names, projections, and bodies that read and transform OTHER globals.  Oracle only: by-value
+    snapshot of ALL variables of all context levels (names included — new names count) taken
+    BEFORE the function has ever been evaluated vs. after the gradient expression (returning or
+    raising); the plain evaluation afterwards must give what it gives in a fresh interpreter and
+    must itself leave the state alone."""
+    form = case["form"]
+    klong = _source_interp(case)
+    nil, mon = SOURCE_BODIES[case["body"]]
     expr = expr_of(dict(form=form, params=["w", "b"] if form in ("mgrad", "mjac") else ["w"]))
 
-    def snapshot():
-        return {(lvl, str(k_)): view(v) for lvl, d in enumerate(klong._context._context) for k_, v in d.items()}
+    def snapshot(k):
+        return {(lvl, str(k_)): view(v) for lvl, d in enumerate(k._context._context) for k_, v in d.items()}
 
-    def plain():
+    def plain(k):
         try:
-            return view(klong("f(w)" if form in MONADIC else "g()"))
+            return view(k("f(w)" if form in MONADIC else "g()"))
         except Exception as e:
             return "raises:" + type(e).__name__
-    before_val = plain()
-    s0 = snapshot()
+    s0 = snapshot(klong)
     d0 = len(klong._context._context)
     try:
         klong(expr)
         outcome = "ok"
     except Exception:
         outcome = "exc"
-    s1 = snapshot()
+    s1 = snapshot(klong)
     problems = []
     tag = f"c07:{case['backend']}:{form}:source"
+    fn = f"g::{nil}" if form not in MONADIC else f"f::{mon}"
     new = sorted(nm for (lvl, nm) in s1 if (lvl, nm) not in s0)
     if new:
-        problems.append((f"{tag}:new-variable", "no new variable", {nm: s1[k] for k in s1 for nm in [k[1]] if k not in s0},
-                         f"`{expr}` ({outcome}) with g::{nil} / f::{mon} left new global variable(s) {new}"))
+        key = f"{tag}:new-variable"
+        if case["body"] == "projection-unknown-fixed-arg" and new == ["c07q"] and s1.get((0, "c07q")) == "~c07q":
+            # the fixed argument of a projection is evaluated in the CALLER's scope (the global one
+            # here); evaluating an undefined name binds it to itself there — same for a plain p(2.0)
+            key = "c07:projection-fixed-arg-unknown-name:self-bound-in-caller-scope"
+        problems.append((key, "no new variable", {nm: s1[k] for k in s1 for nm in [k[1]] if k not in s0},
+                         f"`{expr}` ({outcome}) with {fn} left new global variable(s) {new}"))
     changed = sorted(k[1] for k in s0 if k in s1 and s1[k] != s0[k])
     gone = sorted(k[1] for k in s0 if k not in s1)
     if changed or gone:
         problems.append((f"{tag}:variable-changed", {n: s0[k] for k in s0 for n in [k[1]] if n in changed + gone},
                          {n: s1.get(k, "unbound") for k in s0 for n in [k[1]] if n in changed + gone},
-                         f"`{expr}` ({outcome}) changed/removed variable(s) {changed + gone}"))
+                         f"`{expr}` ({outcome}) with {fn} changed/removed variable(s) {changed + gone}"))
     if len(klong._context._context) != d0:
         problems.append((f"{tag}:context-depth", d0, len(klong._context._context), "context frame leaked or dropped"))
-    after_val = plain()
-    if after_val != before_val or snapshot() != s1:
-        problems.append((f"{tag}:f-after-differs", before_val, after_val,
-                         f"the plain evaluation after `{expr}` differs from the one before (or now changes the state)"))
+    if not problems:
+        # the function afterwards: same as in a fresh interpreter, and it leaves the state alone
+        after_val = plain(klong)
+        s2 = snapshot(klong)
+        ref = _source_interp(case)
+        ref_val = plain(ref)
+        if after_val != ref_val:
+            problems.append((f"{tag}:f-after-differs", ref_val, after_val,
+                             f"{fn} evaluated after `{expr}` returns something else than in a fresh interpreter"))
+        elif s2 != s1 and snapshot(ref) == s0:
+            problems.append((f"{tag}:f-after-changes-state", "state unchanged", sorted(k[1] for k in s2 if s2[k] != s1.get(k)),
+                             f"the plain evaluation of {fn} after `{expr}` now changes the program state"))
     return dict(problems=problems, expr=expr, outcome=outcome)
 
 
